@@ -40,4 +40,11 @@ man = {
     'notes': 'VERIF_REPO selects the tree (default /repo); VERIF_SEED seeds the random part of every generator; known_findings.json lists genuine defects of the unchanged tree by predicate + witness.',
 }
 json.dump(man, open(os.path.join(ROOT, 'MANIFEST.json'), 'w'), indent=1)
+# known findings: fragments known/*.json -> known_findings.json (committed; never written at run time)
+kf = []
+kd = os.path.join(ROOT, 'known')
+for f in sorted(os.listdir(kd)) if os.path.isdir(kd) else []:
+    if f.endswith('.json'):
+        kf += json.load(open(os.path.join(kd, f)))
+json.dump(kf, open(os.path.join(ROOT, 'known_findings.json'), 'w'), indent=1)
 print('checks:', len(checks), 'not_applicable:', len(na))
